@@ -25,6 +25,7 @@ RULE = ("random histories of 6-16 steps over 15 operation kinds (incl. re-enteri
         "history advances, closes, drops or exhausts an iterator while the nesting depth differs from the depth at "
         "which that iterator was created or last advanced. distinct by structural hash of the operation list.")
 RULE += " Size cases (every tier): blocks nested four or five deep in which the same three or four long-lived query objects are opened again under another outermost block; evaluations handing out 150-320 results inside whatever blocks are open, each row computed by user code that constructs a @symbol object."
+RULE += ' Exceptional paths (every tier): iterators over flatten(x.parts) where parts is a generator property whose finally clause constructs a @symbol object (closed, dropped or exhausted at any nesting: every object built by a clean-up clause must be a real instance), and constrained terms whose construction raises (a value without a truth value) inside whatever block is open.'
 LEVEL_TEXT = ("Online trace checker: the observable mode state after every step of generated interleavings of block "
               "entry/exit (incl. exceptional exit) and result-iterator life-cycle operations is compared with a 6-line "
               "reference stack machine; the only concurrency the library has (suspended generators in one thread) is "
